@@ -333,3 +333,44 @@ def callback_guard_handler_is_total(ctx):
     if not n:
         ctx.bad(f'{f.qualname}:callback guard handler is total', f.node, 'the parameter callbacks are not guarded by a try/except: a failing '
                 'callback prevents the notification of the dispatcher', f)
+
+
+@rule('C05.R5b', min_instances=1)
+def exported_value_is_a_function_of_the_cache(ctx):
+    """Parameter.export_value (used by make_update, the snapshot and the read / change replies) is a pure function of the
+    cached value and the datatype: it keeps no memo of its own (a memo is keyed by something - a time stamp, an identity -
+    that can stay the same while the value changes, and the message then carries a value the cache does not hold)"""
+    m = ctx.m
+    f = m.method('frappy.params.Parameter', 'export_value', inherited=False)
+    ctx.analysed(f)
+    stores = [s for t, v, s in attr_stores(f.node) if dotted(t.value) == 'self']
+    loads = {n.attr for n in body_walk(f.node) if isinstance(n, ast.Attribute) and dotted(n.value) == 'self' and isinstance(n.ctx, ast.Load)}
+    extra = loads - {'value', 'datatype'}
+    ctx.check(not stores, f'{f.qualname}:keeps no state', stores[0] if stores else f.node, 'no store to self',
+              f'`{src(stores[0]) if stores else ""}`: the exported form is remembered across calls', f)
+    ctx.check(not extra, f'{f.qualname}:depends on value and datatype only', f.node, f'reads self.{sorted(loads)}',
+              f'the exported value also depends on self.{sorted(extra)}: two different cached values can be exported as the same message', f)
+    rets = [r for r in body_walk(f.node) if isinstance(r, ast.Return) and r.value is not None]
+    for r in rets:
+        exprs = origins(r.value, f.node) if isinstance(r.value, ast.Name) else [r.value]
+        ok = all(isinstance(e, ast.Call) and call_attr(e) == 'export_value' and e.args and src(e.args[0]) == 'self.value' for e in exprs)
+        ctx.check(ok, f'{f.qualname}:returns the export of the cached value', r, 'datatype.export_value(self.value)',
+                  f'returns `{src(r.value)}`, which is not (only) the export of self.value', f)
+
+
+@rule('C05.R7', min_instances=1)
+def scope_prefix_has_separator(ctx):
+    """shared with C08.R3c: a prefix test over the subscription keys uses `<module>:` with the separator - otherwise a
+    connection silently loses the updates of a scope it never deactivated, and its stream no longer follows the cache"""
+    from sa.rules import c08
+    if not c08.check_scope_prefix(ctx):
+        raise roles.AnchorMissing('prefix test over _subscriptions not found')
+
+
+@rule('C05.R8', min_instances=3)
+def listeners_are_a_private_copy(ctx):
+    """shared with C08.R4: broadcast_event sends to a private copy of the subscriber sets (a connection that (de)activates
+    or disconnects while a message is being delivered must not break the delivery loop: the message would be lost for the
+    connections not yet served and their stream no longer reconstructs the cache)"""
+    from sa.rules import c08
+    c08.listener_sources(ctx)
